@@ -33,12 +33,28 @@ def expectedSkeleton : List (String × List String) := [
   ("Run.loopOrder", ["abort-poll", "getop", "lookup", "nil->invalid-opcode", "stack-validation", "read-only", "cost=constantGas", "use-constant-gas", "memory-size", "dynamic-gas", "resize", "execute", "set-return-data", "err/reverts/halts/pc++"]),
   ("Run.readOnlyCheck", ["if $in.readOnly", "if operation.writes || (op == CALL && stack.Back(2).Sign() != 0)", "return nil, nil, ErrWriteProtection"]),
   ("Run.readOnlyEntry", ["if $ro && !$in.readOnly", "$in.readOnly = true", "defer $in.readOnly = false"]),
+  ("analysis.codeBitmap", ["bits := make(bitvec, len(code)/8+1+4)", "for pc < uint64(len(code))", "pc := uint64(0)", "op := OpCode(code[pc])", "if op >= PUSH1 && op <= PUSH32", "numbits := op - PUSH1 + 1", "for numbits >= 8", "numbits -= 8", "pc += 8", "for numbits > 0"]),
   ("authCallGas", []),
   ("callGas", []),
+  ("contract.AsDelegate", ["parent := $c.caller.(*Contract)", "$c.CallerAddress = parent.CallerAddress", "$c.value = parent.value", "return c"]),
+  ("contract.GetByte", ["if n < uint64(len($c.Code))", "return $c.Code[n]", "return 0"]),
+  ("contract.GetOp", ["return OpCode($c.GetByte(n))"]),
+  ("contract.UseGas", ["if $c.Gas < gas", "return false", "$c.Gas -= gas", "return true"]),
+  ("contract.isCode", ["if $c.analysis != nil", "return $c.analysis.codeSegment(udest)", "if $c.CodeHash != (common.Hash{})", "analysis, exist := $c.jumpdests[$c.CodeHash]", "if !exist", "analysis = codeBitmap($c.Code)", "$c.jumpdests[$c.CodeHash] = analysis", "$c.analysis = analysis", "return analysis.codeSegment(udest)", "if $c.analysis == nil", "$c.analysis = codeBitmap($c.Code)", "return $c.analysis.codeSegment(udest)"]),
+  ("contract.validJumpdest", ["udest, overflow := dest.Uint64WithOverflow()", "if overflow || udest >= uint64(len($c.Code))", "return false", "if OpCode($c.Code[udest]) != JUMPDEST", "return false", "return $c.isCode(udest)"]),
+  ("executor.Execute", ["gasLimit := contractRawData.GasLimit", "if common.IsProposal015()", "if contractRawData.GasLimit < intrinsicGas", "vmCtx.GasLimit = defaultGasLimit", "gasLimitTemp := gasLimit", "if common.IsProposal015()", "if common.IsProposal017() && gasLimit > p017defaultGasLimit", "gasLimit = p017defaultGasLimit", "if common.IsProposal026()", "gasLimit = gasLimitTemp", "if gasLimit > p026defaultGasLimit", "gasLimit = p026defaultGasLimit", "vmCtx.GasLimit = gasLimit - intrinsicGas", "result, contractAddress, leftOverGas, logs, err = vmInstance.Create(caller, input, vmCtx.GasLimit, transferValue)", "if common.IsProposal007()", "result, leftOverGas, logs, err = vmInstance.Call(caller, contractAddress, input, vmCtx.GasLimit, transferValue)", "if common.IsProposal015()", "gasUsed := gasLimit - leftOverGas"]),
+  ("executor.IntrinsicGas", ["if contractCreation", "gas = vm.TxGasContractCreation", "gas = vm.TxGas", "if len(data) > 0", "if byt != 0", "if (math.MaxUint64-gas)/nonZeroGas < nz", "return 0, vm.ErrGasUintOverflow", "gas += nz * nonZeroGas", "if (math.MaxUint64-gas)/vm.TxDataZeroGas < z", "return 0, vm.ErrGasUintOverflow", "gas += z * vm.TxDataZeroGas", "if common.IsProposal026()", "return gas * common.GasMagnification, nil", "return gas, nil"]),
+  ("executor.gasConstants", ["defaultGasLimit=6000000", "p017defaultGasLimit=30000000", "p026defaultGasLimit=900000000"]),
   ("flags.Call", []),
   ("flags.NewEVMInterpreter", ["Proposal014Block", "Proposal022Block", "Proposal026Block"]),
   ("flags.RunPrecompiledContract", []),
   ("flags.create", ["common.IsSub", "common.IsProposal006", "common.IsProposal007", "common.IsProposal026"]),
+  ("frame.AuthCall", ["NewContract(caller, AccountRef(addrCopy), value, gas)", "contract.SetCallCode(&addrCopy, GetCodeHash(addrCopy), code)", "run(evm, contract, input, false)"]),
+  ("frame.Call", ["NewContract(caller, AccountRef(addrCopy), value, gas)", "contract.SetCallCode(&addrCopy, GetCodeHash(addrCopy), code)", "run(evm, contract, input, false)"]),
+  ("frame.CallCode", ["NewContract(caller, AccountRef(caller.Address()), value, gas)", "contract.SetCallCode(&addrCopy, GetCodeHash(addrCopy), GetCode(addrCopy))", "run(evm, contract, input, false)"]),
+  ("frame.DelegateCall", ["AsDelegate", "NewContract(caller, AccountRef(caller.Address()), nil, gas)", "contract.SetCallCode(&addrCopy, GetCodeHash(addrCopy), GetCode(addrCopy))", "run(evm, contract, input, false)"]),
+  ("frame.StaticCall", ["NewContract(caller, AccountRef(addrCopy), new(big.Int), gas)", "contract.SetCallCode(&addrCopy, GetCodeHash(addrCopy), GetCode(addrCopy))", "run(evm, contract, input, true)"]),
+  ("frame.create", ["NewContract(caller, AccountRef(address), value, gas)", "contract.SetCodeOptionalHash(&address, codeAndHash)", "run(evm, contract, nil, false)"]),
   ("gasAuthCall", ["B3", "B2", "memoryGasCost", "SafeAdd", "authCallGas", "B1", "SafeAdd"]),
   ("gasCall", ["B2", "B1", "memoryGasCost", "SafeAdd", "callGas", "B0", "SafeAdd"]),
   ("gasCallCode", ["memoryGasCost", "B2", "SafeAdd", "callGas", "B0", "SafeAdd"]),
@@ -88,6 +104,16 @@ def expectedSkeleton : List (String × List String) := [
     table lookup, nil → invalid opcode, **stack validation, then the read-only test** (which reads
     `stack.Back(2)` and is only safe after the validation), constant gas, memory size, dynamic
     gas, resize, execute, return data, err/reverts/halts/pc++.
+    `frame.*`: how each of `Call / CallCode / DelegateCall / StaticCall / AuthCall / create` builds
+    the callee frame — which address is `self`, **which account's code hash keys the shared
+    JUMPDEST-analysis cache** (always the account whose code runs), which code runs, the read-only
+    argument of `run`.  `contract.*` / `analysis.codeBitmap`: every condition, assignment and return
+    of `validJumpdest` (`udest >= len(code)` refuses the destination *equal* to the code length),
+    `isCode` (cache key `CodeHash`), `GetByte`, `UseGas`, `AsDelegate`, and the loop structure of
+    the bitmap construction.
+    `executor.*`: the gas-limit constants of the contract executor (6·10^6 / 3·10^7 / 9·10^8), every
+    condition and assignment of `Execute` that touches the gas limit, and the whole of `IntrinsicGas`
+    (`Model.intrinsicGas`, `Model.executorVmGas`).
     `pkgstate.writes` / `pkgstate.pools`: the only package-level variables of `src/vm` any function
     assigns are the logger (`InitVM`) and the precompile address list (`init`); the only shared
     mutable objects on the execution path are the two `sync.Pool`s of stacks (a new package-level
